@@ -56,6 +56,9 @@ type snapCase struct {
 	// stuck in a slow write, and the owned clock moves on by StallMs meanwhile
 	StallLeave bool `json:"stall_leave,omitempty"`
 	StallMs    int  `json:"stall_ms,omitempty"`
+	// Ops2: what the node goes on to do after it was restarted from a crash
+	// image (C11's "crash, restart, carry on, restart again" phase)
+	Ops2 []hOp `json:"ops2,omitempty"`
 }
 
 var hostileNames = []string{
